@@ -266,7 +266,9 @@ def build_refmodel(family):
     model_srcs = [p for p in (COQ / "theories").rglob("*.v") if p.name.endswith("Model.v") or p.parent.name == "Gen"]
     hv = file_hash(model_srcs + [ex_v])
     stamp = exdir / ".hash"
-    if not (stamp.exists() and stamp.read_text() == hv):
+    if not (stamp.exists() and stamp.read_text() == hv and any(exdir.glob("*.ml"))):
+        if stamp.exists():
+            stamp.unlink()   # a failed extraction must not leave a valid-looking stamp behind
         for old in list(exdir.glob("*.ml")) + list(exdir.glob("*.mli")):
             old.unlink()
         tmpv = exdir / f"Extract_{family}.v"
